@@ -96,6 +96,21 @@ type translator struct {
 	f    *Facts
 	info *types.Info
 	s    *Summary
+	// loops: the unrolled loops (and switches) being translated, innermost last
+	loops []loopFrame
+}
+
+// loopFrame says where control goes on continue / break inside an unrolled loop; a switch frame
+// (next == nil) only captures break, which is outside the fragment there.
+type loopFrame struct {
+	next func(env) Sum
+	brk  func(env) Sum
+}
+
+// contStmt is a synthetic statement: "continue with k" (the rest of an unrolled loop).
+type contStmt struct {
+	ast.EmptyStmt
+	k func(env) Sum
 }
 
 type env map[*types.Var]Sum
@@ -198,6 +213,31 @@ func (tr *translator) stmts(list []ast.Stmt, e env) Sum {
 		return tr.expr(s.Results[0], e)
 	case *ast.BlockStmt:
 		return tr.stmts(append(append([]ast.Stmt{}, s.List...), rest...), e)
+	case *contStmt:
+		return s.k(e)
+	case *ast.BranchStmt:
+		if s.Label == nil && (s.Tok == token.CONTINUE || s.Tok == token.BREAK) {
+			for i := len(tr.loops) - 1; i >= 0; i-- {
+				fr := tr.loops[i]
+				if fr.next == nil {
+					if s.Tok == token.BREAK {
+						break // break out of a switch: not modelled
+					}
+					continue
+				}
+				saved := tr.loops
+				tr.loops = tr.loops[:i]
+				var out Sum
+				if s.Tok == token.CONTINUE {
+					out = fr.next(e)
+				} else {
+					out = fr.brk(e)
+				}
+				tr.loops = saved
+				return out
+			}
+		}
+		tr.fail(s.Pos(), "%s is outside the leaf-function fragment here", s.Tok)
 	case *ast.EmptyStmt:
 		return tr.stmts(rest, e)
 	case *ast.DeclStmt:
@@ -377,6 +417,8 @@ func (tr *translator) switchStmt(s *ast.SwitchStmt, rest []ast.Stmt, e env) Sum 
 		}
 		arms = append(arms, arm{cond, cc.Body})
 	}
+	tr.loops = append(tr.loops, loopFrame{})
+	defer func() { tr.loops = tr.loops[:len(tr.loops)-1] }()
 	var out Sum
 	if hasDef {
 		out = tr.stmts(append(append([]ast.Stmt{}, def...), rest...), e)
@@ -396,8 +438,14 @@ func (tr *translator) switchStmt(s *ast.SwitchStmt, rest []ast.Stmt, e env) Sum 
 //
 // (operands of == in either order).
 func (tr *translator) rangeStmt(s *ast.RangeStmt, rest []ast.Stmt, e env) Sum {
+	if lit, ok := ast.Unparen(s.X).(*ast.CompositeLit); ok {
+		switch tr.info.TypeOf(lit).Underlying().(type) {
+		case *types.Array, *types.Slice:
+			return tr.unrollRange(s, lit, rest, e)
+		}
+	}
 	if _, ok := tr.info.TypeOf(s.X).Underlying().(*types.Map); !ok {
-		tr.fail(s.Pos(), "range over a non-map")
+		tr.fail(s.Pos(), "range over something that is neither a map nor an array/slice literal")
 	}
 	if s.Tok != token.DEFINE || s.Key == nil || s.Value == nil {
 		tr.fail(s.Pos(), "range loop is not of the form  for k, v := range M")
@@ -501,6 +549,61 @@ func (tr *translator) rangeStmt(s *ast.RangeStmt, rest []ast.Stmt, e env) Sum {
 	})
 	tr.s.RangeLoops++
 	return SRev{M: tr.expr(s.X, e), Val: tr.expr(other, e), Else: tr.stmts(rest, e), Fold: fold}
+}
+
+// unrollRange translates  for i, v := range [...]T{e0, e1, ...} { body }  by unrolling: the element
+// expressions are evaluated once, in order, before the first iteration (they are pure in this fragment).
+func (tr *translator) unrollRange(s *ast.RangeStmt, lit *ast.CompositeLit, rest []ast.Stmt, e env) Sum {
+	if len(lit.Elts) > 16 {
+		tr.fail(s.Pos(), "range over a literal with more than 16 elements")
+	}
+	var kv, vv *types.Var
+	if s.Tok == token.DEFINE {
+		if id, ok := s.Key.(*ast.Ident); ok && id.Name != "_" {
+			kv, _ = tr.info.Defs[id].(*types.Var)
+		}
+		if id, ok := s.Value.(*ast.Ident); ok && id.Name != "_" {
+			vv, _ = tr.info.Defs[id].(*types.Var)
+		}
+	} else if s.Key != nil || s.Value != nil {
+		tr.fail(s.Pos(), "range loop assigning to existing variables")
+	}
+	elems := make([]Sum, len(lit.Elts))
+	for i, el := range lit.Elts {
+		if _, keyed := el.(*ast.KeyValueExpr); keyed {
+			tr.fail(el.Pos(), "keyed element in a ranged literal")
+		}
+		elems[i] = tr.expr(el, e)
+	}
+	after := func(e2 env) Sum { return tr.stmts(rest, e2) }
+	var iter func(i int, e2 env) Sum
+	iter = func(i int, e2 env) Sum {
+		if i == len(elems) {
+			return after(e2)
+		}
+		e3 := e2.clone()
+		if kv != nil {
+			e3[kv] = SConst{Value{Kind: VConst, C: constant.MakeInt64(int64(i)), Type: types.Typ[types.Int]}}
+		}
+		if vv != nil {
+			e3[vv] = elems[i]
+		}
+		next := func(e4 env) Sum { return iter(i+1, e4) }
+		depth := len(tr.loops)
+		tr.loops = append(tr.loops, loopFrame{next: next, brk: after})
+		body := append(append([]ast.Stmt{}, s.Body.List...), &contStmt{k: func(e4 env) Sum {
+			// falling off the body: leave this iteration's frame (and any switch inside it) before starting the next one
+			saved := tr.loops
+			tr.loops = tr.loops[:depth]
+			out := next(e4)
+			tr.loops = saved
+			return out
+		}})
+		out := tr.stmts(body, e3)
+		tr.loops = tr.loops[:depth]
+		return out
+	}
+	return iter(0, e)
 }
 
 func (tr *translator) expr(x ast.Expr, e env) Sum {
